@@ -318,24 +318,35 @@ Builtin(o, m, args, st) ==
     ELSE IF o.t = "fn" /\ m = "is_closure" THEN R(VBool(DOMAIN o.cap # {}), st)
     ELSE R(VNil, FailWith(st, "type"))
 
-ExecBlock(ss, i, env, st) ==
-    IF i > Len(ss) \/ ~IsOk(st) THEN ER(env, st)
-    ELSE LET r == Exec(ss[i], env, st) IN ExecBlock(ss, i + 1, r.env, r.st)
-
 (* x = v : update the variable if this activation already has it, else declare *)
 Store(env, st, n, v) ==
     LET c == LookupOwn(env, n) IN
     IF c # 0 THEN ER(env, SetCell(st, c, v))
     ELSE LET s2 == NewCell(st, v) IN ER(BindTop(env, n, LastCell(s2)), s2)
 
+(* `a ?= e` stores the value of e (also nil) into the variable `a` of this activation   *)
+(* (declaring it in the innermost frame if there is none) and yields whether the value *)
+(* is present                                                                          *)
+EvalB(e, env, st) ==
+    IF e.k = "unwrapinto" THEN
+        LET r == Eval(e.e, env, st) IN
+        IF ~IsOk(r.st) THEN [v |-> VNil, st |-> r.st, env |-> env]
+        ELSE LET w == Store(env, r.st, e.n, r.v) IN
+             [v |-> VBool(r.v.t # "nil"), st |-> w.st, env |-> w.env]
+    ELSE LET r == Eval(e, env, st) IN [v |-> r.v, st |-> r.st, env |-> env]
+
+ExecBlock(ss, i, env, st) ==
+    IF i > Len(ss) \/ ~IsOk(st) THEN ER(env, st)
+    ELSE LET r == Exec(ss[i], env, st) IN ExecBlock(ss, i + 1, r.env, r.st)
+
 WhileLoop(s, env, st, n) ==
     IF ~IsOk(st) THEN st
     ELSE IF st.fuel <= 0 THEN FailWith(st, "fuel")
-    ELSE LET c == Eval(s.c, env, [st EXCEPT !.fuel = @ - 1]) IN
+    ELSE LET c == EvalB(s.c, env, [st EXCEPT !.fuel = @ - 1]) IN
          IF ~IsOk(c.st) THEN c.st
          ELSE IF c.v.t # "bool" THEN FailWith(c.st, "type")
          ELSE IF ~c.v.b THEN c.st
-         ELSE LET b == Scoped(s.b, env, c.st).st IN
+         ELSE LET b == Scoped(s.b, c.env, c.st).st IN
               IF b.status = "break" THEN [b EXCEPT !.status = "ok"]
               ELSE IF b.status = "continue" THEN WhileLoop(s, env, [b EXCEPT !.status = "ok"], n + 1)
               ELSE WhileLoop(s, env, b, n + 1)
@@ -362,26 +373,26 @@ FromLoop(s, env, st, cc, zv, n) ==
 Exec(s, env, st) ==
     IF ~IsOk(st) THEN ER(env, st)
     ELSE CASE s.k = "let" ->
-           LET r == Eval(s.e, env, st) IN
+           LET r == EvalB(s.e, env, st) IN
            IF ~IsOk(r.st) THEN ER(env, r.st)
            ELSE IF s.mod THEN
                 (LET c == IF s.n \in DOMAIN env.cap THEN env.cap[s.n] ELSE 0 IN
                  IF c = 0 THEN ER(env, FailWith(r.st, "type")) ELSE ER(env, SetCell(r.st, c, r.v)))
-           ELSE Store(env, r.st, s.n, r.v)
+           ELSE Store(r.env, r.st, s.n, r.v)
       [] s.k = "print" ->
-           LET r == Eval(s.e, env, st) IN
-           IF ~IsOk(r.st) THEN ER(env, r.st) ELSE ER(env, Emit(r.st, Show(r.v, r.st, FALSE)))
+           LET r == EvalB(s.e, env, st) IN
+           IF ~IsOk(r.st) THEN ER(env, r.st) ELSE ER(r.env, Emit(r.st, Show(r.v, r.st, FALSE)))
       [] s.k = "assert" ->
            LET r == Eval(s.e, env, st) IN
            IF ~IsOk(r.st) THEN ER(env, r.st)
            ELSE IF r.v.t = "bool" /\ r.v.b THEN ER(env, r.st) ELSE ER(env, FailWith(r.st, "assert"))
-      [] s.k = "expr" -> ER(env, Eval(s.e, env, st).st)
+      [] s.k = "expr" -> LET r == EvalB(s.e, env, st) IN ER(r.env, r.st)
       [] s.k = "if" ->
-           LET c == Eval(s.c, env, st) IN
+           LET c == EvalB(s.c, env, st) IN
            IF ~IsOk(c.st) THEN ER(env, c.st)
            ELSE IF c.v.t # "bool" THEN ER(env, FailWith(c.st, "type"))
-           ELSE IF c.v.b THEN Scoped(s.t, env, c.st)
-           ELSE IF s.haselse THEN Scoped(s.e, env, c.st) ELSE ER(env, c.st)
+           ELSE IF c.v.b THEN ER(env, Scoped(s.t, c.env, c.st).st)
+           ELSE IF s.haselse THEN ER(env, Scoped(s.e, c.env, c.st).st) ELSE ER(env, c.st)
       [] s.k = "while" -> ER(env, WhileLoop(s, env, st, 0))
       [] s.k = "from" ->
            LET a == Eval(s.a, env, st) IN
